@@ -67,7 +67,7 @@ MkNum(sh, st) == IF sh = <<>> THEN ScalarT(st) ELSE ArrayT(sh, st)
 
 \* Component types of a container, as a sequence
 RECURSIVE RepeatSeq(_, _)
-RepeatSeq(x, n) == IF n = 0 THEN <<>> ELSE <<x>> \o RepeatSeq(x, n - 1)
+RepeatSeq(e, n) == IF n = 0 THEN <<>> ELSE <<e>> \o RepeatSeq(e, n - 1)
 
 Components(t) == CASE t.k = "t" -> t.el
                    [] t.k = "n" -> t.el
